@@ -219,3 +219,31 @@ func queryHasRootOperand(q *Query) bool {
 	}
 	return false
 }
+
+// IsAggregateName reports whether a function name (with optional digit suffix) is one of the
+// harness's aggregate functions.
+func IsAggregateName(name string) bool {
+	for len(name) > 0 && name[len(name)-1] >= '0' && name[len(name)-1] <= '9' {
+		name = name[:len(name)-1]
+	}
+	switch name {
+	case "g", "cnt", "eg", "first":
+		return true
+	}
+	return false
+}
+
+// ValueGroup reports whether the path may select several values (the library refuses such
+// paths as comparison operands): some step is not single-valued and no aggregate function
+// collapses the selection afterwards.
+func (p *Path) ValueGroup() bool {
+	if p.SingleValued() {
+		return false
+	}
+	for _, f := range p.Funcs {
+		if IsAggregateName(f) {
+			return false
+		}
+	}
+	return true
+}
